@@ -6,12 +6,115 @@ from pathlib import Path
 
 HERE = Path(__file__).resolve().parent.parent
 
+VM = "reference IC10 machine (vf/ic10_vm.py) within its trusted arithmetic domain, device model of vf/env.py"
 CLAIMED = {
+    "C01": dict(
+        technique="runtime monitoring: emitted IC10 executed on an instrumented reference machine, effect trace compared online with an independent reference interpreter of the source under the same simulated devices",
+        text="Exploration: ~2000 (quick) / ~25000 (thorough) generated, skeleton, echo, pressure, layout-mutated and corpus programs x 3-4 option vectors x 2-4 device environments; verdict = element-wise equality of effect traces up to caps; held-on-observed.",
+        note="Trusts " + VM + " and vf/pyref.py; constructs outside the judged subset (DESIGN 2.4) are counted not_judged; known findings are attributed by monitor signature + trigger predicate.",
+        ref="DESIGN.md 3 C01",
+    ),
+    "C02": dict(
+        technique="runtime monitoring: differential execution of the outputs of one source under 13 option vectors on the reference machine; pragma-vs-API delivery compared",
+        text="Exploration: every successful vector's effect trace must equal the first one's under the same environments; ~1300 sources x 13 vectors quick. No source model involved.",
+        note="Trusts " + VM + "; a vector that errors where another compiles is recorded, not judged (coverage floor per {inline,tail,push/pop} combination enforced).",
+        ref="DESIGN.md 3 C02",
+    ),
+    "C03": dict(
+        technique="runtime monitoring: differential execution of folded vs run-time evaluated renderings of the same expression on the reference machine, plus the harness interpreter as an independent evaluator",
+        text="Exploration with a completely enumerated operator x operand-class table (about 2000 rows) plus random trees; written values must agree across literal / stack-loaded / mixed / variable / function-argument renderings.",
+        note="Trusts vf/ic10_arith.py inside the trusted domain (positive modulus, non-negative ints < 2^31 for bit ops, no rounding ties).",
+        ref="DESIGN.md 3 C03",
+    ),
+    "C04": dict(
+        technique="runtime monitoring: shadow register tags on the reference machine, fed by the guarded hook (virtual -> physical register per instruction); register-range and 16-register limit monitors",
+        text="Exploration: register-pressure families (k=1..24 live values), call graphs, random and layout-mutated programs; ~3e6 register reads tag-checked per quick run; a read that finds another virtual register's tag is a clobber with both instructions as witness.",
+        note="Trusts the add-only hook (PYTRAPIC_VERIF=1) and the alignment of its list with the emitted text (misalignment = inconclusive); definite assignment of generated programs.",
+        ref="DESIGN.md 3 C04",
+    ),
+    "C05": dict(
+        technique="runtime monitoring: loader (labels defined exactly once, targets in range), harness-computed text relation between the two label modes, lock-step execution of both outputs with path comparison",
+        text="Exploration over generated programs whose function names come from hostile identifier pools (prefix chains, clashes, label look-alikes, operand look-alikes), strings containing label names, corpus.",
+        note="Trusts vf/tok.py and the reference machine for the lock-step part; comment options are off in the pairs.",
+        ref="DESIGN.md 3 C05",
+    ),
+    "C06": dict(
+        technique="runtime monitoring: shadow call stack (return address, sp at return, arity-aware) on the reference machine; echo programs compared with the interpreter; recursion must be rejected",
+        text="Exploration: call-heavy echo / tail-chain / random programs x the eight {inline, tail-call, push/pop} corners x both label modes; ~3e5 calls and returns checked per quick run.",
+        note="Arity/returns-a-value read from the source; for-list bodies are pseudo calls whose frames may be abandoned by break.",
+        ref="DESIGN.md 3 C06",
+    ),
+    "C07": dict(
+        technique="runtime monitoring: region / fall-through monitor and state-cycle (divergence) detector on the reference machine; 'main has ended' supplied by the reference interpreter",
+        text="Exploration: terminating and endless mains with 1-4 functions under the eight call-convention corners; function regions may only be entered by jal or a tail jump; after the source ends the chip must halt with the same effects.",
+        note="The pinned tree's fall-through into the first function is a recorded known finding (pinned by .ref files); every other entry path or post-end effect is a violation.",
+        ref="DESIGN.md 3 C07",
+    ),
+    "C08": dict(
+        technique="runtime monitoring: token-wise comparison of compact vs verbose output with independent evaluators (own CRC-32, STR packing, enum snapshot, positional enum resolution from the ISA table)",
+        text="Exploration + exhaustive enum stream: every member of every enum as a value and every LogicType/SlotType/BatchMethod in operand position in each run; strings from ASCII/Latin-1/astral alphabets.",
+        note="Enum ground truth is the snapshot taken at the pinned commit (stated assumption).",
+        ref="DESIGN.md 3 C08",
+    ),
+    "C09": dict(
+        technique="runtime monitoring: ISA-table loader (static sanitizer) on every successful result, literal read-back monitor, version-note monitor",
+        text="Exploration: generated programs, corpus, all intrinsic wrappers, device access forms, 2500 (quick) literals across binades and format-branch boundaries, version-note line lengths 40-100.",
+        note="Trusts the hand-written ISA table (opcode set cross-checked against webapp/src/ic10.json at start-up).",
+        ref="DESIGN.md 3 C09",
+    ),
+    "C10": dict(
+        technique="runtime monitoring: wrapper monitors around the real compile_code (exception recorder, return-shape checker, child-process monitor via Popen wrapper and /proc, duration, watchdog with solo re-run)",
+        text="Exploration: ~5600 hostile texts per quick run (mutated programs, unsupported constructs, recursion, Lua-looking text, dunder pragmas, deep nesting, constexpr bodies that fail/print/exit/loop) x arbitrary option values.",
+        note="'Promptly' is decided logically (children bounded by the code's own 1 s timeout); a wall-clock stall must reproduce when the case runs alone.",
+        ref="DESIGN.md 3 C10",
+    ),
+    "C11": dict(
+        technique="runtime monitoring: offline history checker over recorded request/response histories of one long-lived process, references from fresh processes and pristine forked children under several PYTHONHASHSEED values, input-immutability snapshots",
+        text="Exploration: 8 (quick) / 400 (thorough) histories of 40-130 requests over pools chosen to touch every piece of process-wide state; each occurrence must equal the first occurrence and the fresh-process result.",
+        note="constexpr timeouts under load are inconclusive; fresh processes import the same working tree.",
+        ref="DESIGN.md 3 C11",
+    ),
+    "C12": dict(
+        technique="runtime monitoring: direct evaluation of the same constexpr source in the harness + metamorphic twin (calls replaced by expected literals must give identical code)",
+        text="Exploration: ~150 programs / ~430 call sites per quick run over 10 body templates x argument spellings x 7 call positions incl. library modules; 4 workers to protect the child's 1 s budget.",
+        note="Results are numbers; a remaining timeout after two retries is inconclusive.",
+        ref="DESIGN.md 3 C12",
+    ),
+    "C13": dict(
+        technique="runtime monitoring: differential execution of the multi-module rendering vs the harness-merged single file on the reference machine, both also against the interpreter; unused-function output comparison",
+        text="Exploration: 700 (quick) template programs rendered both ways, 1-3 modules with colliding global/function names, aliases, __main__ blocks with effects, uncalled functions, 3 option vectors.",
+        note="Calls into modules from inside main-file functions are rejected by the transpiler and not generated.",
+        ref="DESIGN.md 3 C13",
+    ),
+    "C14": dict(
+        technique="runtime monitoring: line-protocol checker over the captured stdout of the real daemon process driven with scripted request histories incl. injected faults; unique marker per request",
+        text="Exploration: 80-120 sessions (quick) of 5-45 lines in lock-step and burst mode; verdict after process exit: one base64-JSON object per non-empty request line before EXIT, in order, nothing else, exit 0.",
+        note="Whitespace-only lines not generated; a session exceeding the wall-clock bound is inconclusive.",
+        ref="DESIGN.md 3 C14",
+    ),
+    "C15": dict(
+        technique="runtime monitoring: differential of the real compile_code on (text with directives, caller options) vs (neutralised text, options computed by the harness's own directive parser)",
+        text="Exploration: 6600 (quick) pairs over directive spellings, positions, junk/dunder names, decoys (after code, in strings, behind form feed / U+2028) x all 256 caller vectors as dataclass or dict.",
+        note="Trusts vf/harness.py directive_options as the reading of the property statement.",
+        ref="DESIGN.md 3 C15",
+    ),
+    "C16": dict(
+        technique="runtime monitoring: exhaustive walk over the live table objects with independent re-computation (own CRC-32, ISA table, singular/plural agreement, pinned snapshot)",
+        text="Exhaustive enumeration (exhaustive: true): 358+358 structure classes, every logic type / slot property and the instruction it builds, 149 intrinsic wrappers, 27 enums / 643 members: 15587 obligations per run.",
+        note="Slot-name ground truth = singular/plural/numbered agreement plus the pinned snapshot.",
+        ref="DESIGN.md 3 C16",
+    ),
+    "C17": dict(
+        technique="runtime monitoring: postcondition monitor - independent recount of lines / bytes / registers on every successful result",
+        text="Exploration: ~8000 successful results per quick run over generated programs, corpus, multi-module programs and tiny/empty/comment-heavy programs x random option vectors.",
+        note="Programs naming physical registers themselves are excluded from the register count; non-ASCII outputs accept character or UTF-8 byte length.",
+        ref="DESIGN.md 3 C17",
+    ),
     "C18": dict(
         technique="runtime monitoring: round-trip + alphabet oracle on the real encode_data/decode_data under a generated workload, with a monitor that records which base64 residues/substitutions each case exercised",
-        text="Exploration: the real functions are driven with 2e5 (quick) / 3e6 (thorough) generated JSON-native dictionaries; the oracle is the identity itself; the monitor shows every padding length and both alphabet substitutions were exercised. Held-on-observed, not a proof.",
+        text="Exploration: 2e5 (quick) / 3e6 (thorough) generated JSON-native dictionaries; the oracle is the identity itself; the monitor shows every padding length and both alphabet substitutions were exercised.",
         note="Trusts python's json/zlib/base64 only for classifying coverage; dictionaries are JSON-native.",
-        ref="DESIGN.md §3 C18",
+        ref="DESIGN.md 3 C18",
     ),
 }
 
